@@ -102,7 +102,7 @@ func init() {
 		Rule: "(snapshot) engine A: at quiescent points Dump feeds are started from start CAS in {0, a median CAS, the maximum, maximum+1, the touched key's CAS} (every fourth one KeysOnly) and compared with the current read-back of every key: bracketed by the markers, in CAS order, exactly the documents (tombstones included) with CAS >= start, once each, every field equal to what a live event for that state carries; (join) a backfill+live feed is started while 2-6 writers run and the feed.registered hook parks the starter between end of backfill and registration until further writes have been acknowledged; after a fence the newest event received for every key must be its final version; cell = (variant, pre-state, outcome, bucket type) / (writers, writes inside the window)",
 		Assumptions: kvAssume,
 		Parts: append(c09SeqParts(),
-			mk("C09", "join-races", 150, 2000, false, joinScenario),
+			mk("C09", "join-races", 300, 6000, false, joinScenario),
 			mk("C09", "join-races-race", 20, 200, true, joinScenario)),
 		RaceOwner: func(string) bool { return false },
 		Floor: func(tier string, m *sup.Merged) string {
@@ -120,8 +120,8 @@ func init() {
 		Rule: "1-4 writers (regular API) run while a feed with a checkpoint prefix in resume mode is started through alternating handles, allowed a PRNG-chosen number of callbacks (the callback parks on a channel so events stay queued), stopped by its terminator, its checkpoint document read, 3-8 times; then a Dump resume run catches up; oracle: the checkpoint's last_seq never exceeds the highest CAS the feed delivered so far, and the final version (read-back CAS) of every key is in the union of the runs' deliveries; schedule noise at the commit->post hook; also under the race detector; cell = (writers, restarts, stops while writers active, bucket type)",
 		Assumptions: []string{"the checkpoint document itself is excluded from the must-deliver set (it is written by the feed)", "stops are sampled at PRNG-chosen callback counts, not at every queue position"},
 		Parts: []sup.Part{
-			mk("C15", "checkpoint-restarts", 120, 2500, false, checkpointScenario),
-			mk("C15", "checkpoint-restarts-race", 20, 200, true, checkpointScenario),
+			mk("C15", "checkpoint-restarts", 600, 12000, false, checkpointScenario),
+			mk("C15", "checkpoint-restarts-race", 60, 1200, true, checkpointScenario),
 		},
 		RaceOwner: func(string) bool { return false },
 		Floor: func(tier string, m *sup.Merged) string {
